@@ -14,6 +14,13 @@ Line protocol (see lean/CsVerif/Driver/C04.lean)
   rec rev build flatprog <http>       -> `ok <o m i>` | `exc …`                  (recover on arbitrary messages)
   b64e/u64e/b64d/u64d x               -> CPython base64 vs model
   rchain prog x                       -> reference decoder chain (Python reference vs Lean reference)
+g-* streams: the definitions TRANSLATED from the source of `HttpDataTransform.__init__ / transform / recover` (Gen/PyC2T.lean,
+tools/py2leanu.py) against the real class, on Python values in the notation of tools/harness/pyuval.py: every tr / re / trf / rec case
+is also a g-case (same step tuples, same masks, same messages), plus `g-kinds` (arguments of kinds the hand model cannot express)
+  gi  <steps> <reverse> <build>                                 -> `ok I6[<tsteps>;<rsteps>]`
+  gtr Q|S <steps> <reverse> <build> <c2data> <request> l<masks> -> `T <request> R ok <c2data>` (S: recover from HttpResponse(200, r.headers, b"OK", r.body))
+  gr  <steps> <reverse> <build> <http>                          -> `ok <c2data>`
+  pyu <op> <operands>                                           -> run-time operations added for C04 (PyU_T04.lean) vs utils.*
 """
 from __future__ import annotations
 
@@ -25,8 +32,11 @@ from dissect.cobaltstrike import c2 as c2mod
 from dissect.cobaltstrike.c2 import C2Data, HttpDataTransform, HttpRequest, HttpResponse
 
 from . import common as C
+from . import pyuval, pyuval_t04
 
 ID = "C04"
+GEN = ["py_utils", "py_c2u", "py_c2t"]
+EXTRA_PROP_FILES = ["Props/C04Gen.lean"]
 DRIVER = "drv_c04"
 KNOWN_ID = "C04-uri-append-initial-uri"
 STREAMS = {
@@ -38,6 +48,15 @@ STREAMS = {
     "rec": {"relevant": False, "desc": "recover on arbitrary / malformed messages (KeyError, IndexError, ValueError, AssertionError)"},
     "b64": {"relevant": False, "desc": "CPython base64 encoders / lenient decoders vs the Lean model"},
     "rchain": {"relevant": False, "desc": "Python reference decoder chain vs Lean reference decoder chain"},
+    "g-tr": {"relevant": False, "desc": "__init__ / transform / recover TRANSLATED from their source (Gen/PyC2T.lean; base64 / getrandbits = the sub-models) vs the class, on every case of tr (all but NetBIOS steps on kilobyte payloads, see g_affordable)"},
+    "g-re": {"relevant": False, "desc": "translated __init__ / recover vs the class on every case of re (reference-encoded messages)"},
+    "g-trf": {"relevant": False, "desc": "translated __init__ / transform / recover vs the class on every case of trf"},
+    "g-rec": {"relevant": False, "desc": "translated __init__ / recover vs the class on every case of rec"},
+    "g-init": {"relevant": False, "desc": "translated __init__ vs the class: tsteps / rsteps for steps, reverse, build of all kinds"},
+    "g-kinds": {"relevant": False, "desc": "translated definitions vs the class on arguments the hand model cannot express (step values / names / "
+                "payloads / messages of other kinds: AssertionError, TypeError, AttributeError branches)"},
+    "pyu": {"relevant": False, "desc": "the operations of the translator's run-time library added for C04 (PyU_T04.lean: utils.netbios_encode / "
+            "netbios_decode / xor / p32be on dynamic values) vs the real functions on operands of all kinds"},
 }
 TRUSTED = [
     "tools/harness/c04.py: generators, adapters, the plain-Python reference codec (oracle) and its agreement with lean Ref.* "
@@ -45,7 +64,11 @@ TRUSTED = [
     "CPython base64.b64encode/urlsafe_b64encode/b64decode(validate=False)/urlsafe_b64decode, bytes.partition/lower/upper, dict, "
     "struct.pack('>I') are modelled (Model/C04.lean), not verified; the base64 model is compared exhaustively on short inputs (stream b64)",
     "utils.xor / netbios_encode / netbios_decode models are those of C20 (Model/C20.lean)",
-    "step names are classified by the harness with str.lower() (the model starts after `step.lower()`)",
+    "step names are classified by the harness with str.lower() (the model starts after `step.lower()`) — for the hand-model streams; "
+    "Props/C04Gen.lean proves the classification (C04Gen.stepOf) for the translated definitions",
+    "tools/py2leanu.py + lean/CsVerif/Model/PyU.lean / PyU_T04.lean (untyped translator and its run-time library): Props/C04Gen.lean proves "
+    "the translated __init__ / transform / recover equal to the hand-written model (externs instantiated with the C04 codec models); the "
+    "g-* streams run the translated definitions against the real class, the pyu stream runs the new run-time operations against utils.*",
 ]
 ASSUMPTIONS = [
     "random.getrandbits(32) is replaced by a scripted stream (Mersenne Twister not modelled); theorems hold for every stream",
@@ -553,6 +576,10 @@ def msg_of(server, r):
 
 
 def impl(stream, line):
+    if stream == "pyu":
+        return pyuval_t04.run(line)
+    if stream.startswith("g-"):
+        return g_impl(line)
     w = line.split(" ")
     op = w[0]
     salt = sum(line.encode()) if len(line) < 4000 else len(line)
@@ -623,6 +650,193 @@ def impl(stream, line):
 
 
 # --------------------------------------------------------------------------------------
+# g-* streams: the translated definitions (Gen/PyC2T.lean) vs the real class, on Python values (notation: pyuval.py)
+# --------------------------------------------------------------------------------------
+
+BUILD_ARG = {"none": None, "o": "output", "i": "id", "m": "metadata", "x": "other"}
+
+
+def g_line(line):
+    """the g-case of a tr / re / trf / rec line: the very step tuples, masks and messages `impl` uses for that line"""
+    w = line.split(" ")
+    op = w[0]
+    salt = sum(line.encode()) if len(line) < 4000 else len(line)
+    P = pyuval.pshow
+    if op in ("tr", "re"):
+        codes = parse_codes(w[2])
+        server = w[1] == "s"
+        if server:
+            steps, rev, build = server_lib_steps([c[1] for c in codes]), True, "output"
+        else:
+            steps, rev, build = lib_steps(codes, salt), False, None
+        c2 = {"output": unob(w[3]), "metadata": unob(w[4]), "id": unob(w[5])}
+        q, k = parse_req(w, 6)
+        masks = C.unints(w[k])
+        if op == "tr":
+            return (f"gtr {'S' if server else 'Q'} {P(steps)} {P(rev)} {P(build)} {P(C2Data(output=c2['output'], metadata=c2['metadata'], id=c2['id']))}"
+                    f" {P(mk_request(q))} {C.ints(masks)}")
+        items = [("block", "output", [c[1] for c in codes], ("print",))] if server else group_items(codes)
+        e = r_encode(items, masks, c2, q or EMPTY_REQ)
+        r = HttpRequest(method=e["method"], uri=e["uri"], params=e["params"], headers=e["headers"], body=e["body"])
+        return f"gr {P(steps)} {P(rev)} {P(build)} {P(http_of(server, r))}"
+    if op == "trf":
+        steps = lib_steps(parse_codes(w[3]), salt)
+        q, k = parse_req(w, 7)
+        c2 = C2Data(output=unob(w[4]), metadata=unob(w[5]), id=unob(w[6]))
+        return f"gtr Q {P(steps)} {P(w[1] == 'T')} {P(BUILD_ARG[w[2]])} {P(c2)} {P(mk_request(q))} {w[k]}"
+    if op == "rec":
+        steps = lib_steps(parse_codes(w[3]), salt)
+        if w[4] == "S":
+            http = HttpResponse(status=200, headers=undict(w[5]), reason=b"OK", body=C.unhx(w[6]))
+        else:
+            http = mk_request(parse_req(w, 4)[0])
+        return f"gr {P(steps)} {P(w[1] == 'T')} {P(BUILD_ARG[w[2]])} {P(http)}"
+    raise RuntimeError("g_line: " + op)
+
+
+def g_affordable(line):
+    """all cases but NetBIOS steps on kilobyte payloads: the typed translation of `netbios_encode` / `netbios_decode` (Gen/PyUtils.lean)
+    appends to a list item by item, i.e. is quadratic in the compiled driver (0.3 s for 4 KB, 4 s when applied twice)"""
+    if len(line) <= 3000:
+        return True
+    w = line.split(" ")
+    prog = w[2] if w[0] in ("tr", "re") else w[3]
+    return not any(c in ("nb", "nbu") for c in prog[1:].split(","))
+
+
+def g_show_t(t):
+    return "I6[" + pyuval.pshow(t.tsteps) + ";" + pyuval.pshow(t.rsteps) + "]"
+
+
+def g_impl(line):
+    """the real class on the Python values of a g-line; exceptions of the constructor / `transform` propagate (the runner maps them)"""
+    w = line.split(" ")
+    X = pyuval.pparse
+    if w[0] == "gi":
+        return "ok " + g_show_t(HttpDataTransform(X(w[1]), X(w[2]), X(w[3])))
+    if w[0] == "gr":
+        t = HttpDataTransform(X(w[1]), X(w[2]), X(w[3]))
+        return "ok " + pyuval.pshow(t.recover(X(w[4])))
+    if w[0] == "gtr":
+        t = HttpDataTransform(X(w[2]), X(w[3]), X(w[4]))
+        saved = c2mod.random
+        c2mod.random = _Scripted(C.unints(w[7]))
+        try:
+            r = t.transform(X(w[5]), X(w[6]))
+        finally:
+            c2mod.random = saved
+        http = HttpResponse(status=200, headers=r.headers, reason=b"OK", body=r.body) if w[1] == "S" else r
+        try:
+            rec = "ok " + pyuval.pshow(t.recover(http))
+        except Exception as e:  # noqa: BLE001
+            if type(e).__name__ == "Timeout":
+                raise
+            rec = "exc " + _exc(e)
+        return f"T {pyuval.pshow(r)} R {rec}"
+    raise RuntimeError("g_impl: " + w[0])
+
+
+# values of the wrong kind for a step argument / payload / message field.  Left out on purpose (PyU states them as not modelled):
+# non-ASCII step names (`str.lower` is the Unicode mapping), dict / instance values of an unknown step (their `repr`), and
+# non-bytes payloads together with netbios / mask steps (`netbios_decode("")`, `xor(x, b"\0\0\0\0")` accept them)
+G_NAMES = ["append", "prepend", "base64", "base64url", "netbios", "netbiosu", "mask", "print", "header", "_header", "_hostheader",
+           "uri_append", "parameter", "_parameter", "build"]
+G_VALS = [None, True, False, 0, 1, 2, 3, -1, 5, b"", b"k", b"Cookie", b"a=b", b"A: b", "", "k", "output", "id", "metadata", "other", b"output",
+          (), (1,), [], [b"k"], (b"k", b"v")]
+
+
+def g_step(rng):
+    r = rng.random()
+    name = rng.choice(G_NAMES)
+    if r < 0.08:
+        name = rng.choice([None, 5, b"append", b"PRINT", True, ("print",), "", "base32", "BUILD2", "x y"])
+    elif r < 0.5:
+        name = _case(name, rng.randrange(4))
+    val = rng.choice(G_VALS)
+    if not isinstance(name, str) or name.lower() not in G_NAMES:
+        val = rng.choice([v for v in G_VALS if not isinstance(v, dict)])
+    r = rng.random()
+    if r < 0.05:
+        return rng.choice([(name,), (name, val, val), 5, None, b"ab", "ab", [name, val], {name: 1, "x": 2}])
+    return (name, val)
+
+
+def g_payload(rng, nonbytes):
+    if nonbytes and rng.random() < 0.5:
+        return rng.choice(["", "ab", "QUJD", 0, 5, True, (), [1], ("a",)])
+    return rng.choice([None, b"", b"A", b"ABC", b"QUJD", b"ebec", b"EBEC", b"\x01\x02\x03\x04\x40", bytes(rng.getrandbits(8) for _ in range(rng.randrange(0, 9)))])
+
+
+def g_kinds_case(rng):
+    P = pyuval.pshow
+    steps = [g_step(rng) for _ in range(rng.choice([0, 1, 1, 2, 3, 4]))]
+    nonbytes = not any(n in repr(steps).lower() for n in ("netbios", "mask"))
+    r = rng.random()
+    steps_v = tuple(steps) if r < 0.1 else steps
+    rev = rng.choice([False, False, True, 0, 1, "", "x", None, b""])
+    build = rng.choice([None, None, "output", "id", "metadata", "OUTPUT", "", 5, b"output", True])
+    if build in ("output", "id", "metadata"):
+        pass
+    if rng.random() < 0.55:
+        r = rng.random()
+        if r < 0.1:
+            c2 = rng.choice([None, (), (b"o", b"m", b"i"), 5, HttpRequest(b"", b"", {}, {}, b"")])
+        else:
+            cls = rng.choice([C2Data, c2mod.ClientC2Data, c2mod.ServerC2Data])
+            c2 = cls(output=g_payload(rng, nonbytes), metadata=g_payload(rng, nonbytes), id=g_payload(rng, nonbytes))
+        r = rng.random()
+        if r < 0.3:
+            req = None
+        elif r < 0.45:
+            req = rng.choice([(), "", 0, b"", "x", 5, (1, 2), HttpResponse(200, {}, b"OK", b"")])
+        else:
+            req = HttpRequest(method=b"GET", uri=rng.choice([b"", b"/x"]), params=rng.choice([{}, {b"k": b"v"}]),
+                              headers=rng.choice([{}, {b"k": b"v"}, {b"A": b"b", b"Cookie": b"c"}]), body=rng.choice([b"", b"old"]))
+        return f"gtr {rng.choice('QQS')} {P(steps_v)} {P(rev)} {P(build)} {P(c2)} {P(req)} {C.ints(gen_masks(rng, 2))}"
+    r = rng.random()
+    if r < 0.12:
+        http = rng.choice([None, (), 5, b"x", (b"", b"", {}, {}, b""), C2Data(None, None, None)])
+    elif r < 0.4:
+        http = HttpResponse(status=rng.choice([200, None, b"200"]), headers=rng.choice([{}, {b"k": g_payload(rng, nonbytes)}, None, {"k": b"v"}]),
+                            reason=rng.choice([b"OK", None]), body=g_payload(rng, nonbytes))
+    else:
+        http = HttpRequest(method=b"GET", uri=g_payload(rng, nonbytes), params=rng.choice([{}, {b"k": g_payload(rng, nonbytes)}, None, {b"": b"QUJD"}]),
+                           headers=rng.choice([{}, {b"k": g_payload(rng, nonbytes)}, {b"Cookie": b"QUJD", b"k": b"ebec"}, ()]),
+                           body=g_payload(rng, nonbytes))
+    return f"gr {P(steps_v)} {P(rev)} {P(build)} {P(http)}"
+
+
+def g_init_case(rng):
+    P = pyuval.pshow
+    r = rng.random()
+    if r < 0.75:
+        steps = [g_step(rng) if rng.random() < 0.5 else pyuval.value(rng, 1) for _ in range(rng.choice([0, 1, 2, 3, 5]))]
+        if rng.random() < 0.3:
+            steps = tuple(steps)
+    else:
+        steps = pyuval.value(rng)
+    return f"gi {P(steps)} {P(rng.choice([False, True, None, 0, 1, 2, '', 'x', b'', (), [0]]))} {P(rng.choice([None, 'output', 'id', 'x', '', 0, 5, b'o', False, ()]))}"
+
+
+def g_shrink(line):
+    """drop items of the step list, then whole tokens"""
+    w = line.split(" ")
+    i = 2 if w[0] == "gtr" else 1
+    try:
+        steps = pyuval.pparse(w[i])
+    except Exception:  # noqa: BLE001
+        steps = None
+    if isinstance(steps, (list, tuple)):
+        for k in range(len(steps)):
+            cand = list(steps[:k]) + list(steps[k + 1:])
+            yield " ".join(w[:i] + [pyuval.pshow(cand if isinstance(steps, list) else tuple(cand))] + w[i + 1:])
+    if w[0] == "gtr":
+        for j, repl in ((6, "N"), (7, "l")):
+            if w[j] != repl:
+                yield " ".join(w[:j] + [repl] + w[j + 1:])
+
+
+# --------------------------------------------------------------------------------------
 # oracle / classification
 # --------------------------------------------------------------------------------------
 
@@ -637,6 +851,8 @@ def expected_c2(line):
 
 
 def oracle(stream, line, out):
+    if stream.startswith("g-") or stream == "pyu":
+        return None
     base = stream.split("-")[0]
     if base == "tr":
         if not out.startswith("T ok ") or " R " not in out or " D " not in out:
@@ -665,7 +881,7 @@ def oracle(stream, line, out):
 
 
 def known(stream, line, known_list):
-    if not stream.endswith("uriappend-initial"):
+    if stream.startswith("g-") or not stream.endswith("uriappend-initial"):
         return None
     if not any(k["id"] == KNOWN_ID for k in known_list):
         return None
@@ -678,6 +894,12 @@ def known(stream, line, known_list):
 
 
 def nontrivial(stream, line, out):
+    if stream == "pyu":
+        return not out.startswith("exc ")
+    if stream.startswith("g-"):
+        if stream == "g-kinds":
+            return True
+        return not out.startswith("exc ") and " exc " not in out and "U[" in line
     if out.startswith("exc ") or " exc " in out:
         return False
     w = line.split(" ")
@@ -694,6 +916,11 @@ def nontrivial(stream, line, out):
 
 
 def shrink(stream, line):
+    if stream == "pyu":
+        return
+    if stream.startswith("g-"):
+        yield from g_shrink(line)
+        return
     w = line.split(" ")
     # drop program codes first
     for i, t in enumerate(w):
@@ -942,6 +1169,23 @@ B64_ALPHA = b"AQ/+=\n-_z"
 
 
 def gen(tier, rng, shard, nshards):
+    """every case that calls the class is also run through the definitions translated from its source"""
+    for stream, line in gen0(tier, rng, shard, nshards):
+        yield stream, line
+        base = stream.split("-")[0]
+        if base in ("tr", "re", "trf", "rec") and g_affordable(line):
+            yield "g-" + base, g_line(line)
+    for _ in range((40000 if tier == "thorough" else 4000) // nshards):
+        yield "g-kinds", g_kinds_case(rng)
+    for _ in range((10000 if tier == "thorough" else 1500) // nshards):
+        yield "g-init", g_init_case(rng)
+    for _ in range((60000 if tier == "thorough" else 6000) // nshards):
+        line = pyuval_t04.case(rng)
+        if line is not None:
+            yield "pyu", line
+
+
+def gen0(tier, rng, shard, nshards):
     thorough = tier == "thorough"
     k = 0
 
